@@ -175,3 +175,88 @@ func vfH_c19_bitor() {
 	}
 	vfCover("done")
 }
+
+type pTmplSub struct {
+	Flags uint64 `protobuf:"varint,1,opt,name=flags"`
+	N     int64  `protobuf:"varint,2,opt,name=n"`
+}
+
+type pTmpl struct {
+	Count int64    `protobuf:"varint,1,opt,name=count"`
+	Flags uint64   `protobuf:"varint,2,opt,name=flags"`
+	Name  string   `protobuf:"bytes,3,opt,name=name"`
+	Sub   pTmplSub `protobuf:"bytes,4,opt,name=sub"`
+	Other int32    `protobuf:"varint,5,opt,name=other"`
+}
+
+// H19-template: ParseRewriteTemplate with RewriterRules (BitOr on "flags" at top level and inside "sub"): the template
+// names a ruled field and un-ruled fields, in either order (vfMode); applied to an encoded message the result decodes
+// to the original with exactly the templated fields replaced and the ruled ones bit-or'ed; untouched fields keep
+// their values; input unchanged.
+func vfH_c19_template() {
+	d1, d2 := vfByte(), vfByte()
+	vfAssume(d1 >= '1' && d1 <= '9')
+	vfAssume(d2 >= '0' && d2 <= '9')
+	cnt := int64(d1-'0')*10 + int64(d2-'0') // template value for count: two digits
+	mask := uint64(d2 - '0')                // template value for flags: one digit
+	var tmpl []byte
+	switch vfMode {
+	case 0:
+		tmpl = append(tmpl, `{"flags":`...)
+		tmpl = append(tmpl, d2)
+		tmpl = append(tmpl, `,"count":`...)
+		tmpl = append(tmpl, d1, d2)
+		tmpl = append(tmpl, `,"name":"t"}`...)
+	case 1:
+		tmpl = append(tmpl, `{"count":`...)
+		tmpl = append(tmpl, d1, d2)
+		tmpl = append(tmpl, `,"name":"t","flags":`...)
+		tmpl = append(tmpl, d2)
+		tmpl = append(tmpl, '}')
+	default:
+		tmpl = append(tmpl, `{"sub":{"flags":`...)
+		tmpl = append(tmpl, d2)
+		tmpl = append(tmpl, `,"n":`...)
+		tmpl = append(tmpl, d1, d2)
+		tmpl = append(tmpl, `},"count":`...)
+		tmpl = append(tmpl, d1, d2)
+		tmpl = append(tmpl, '}')
+	}
+	rules := RewriterRules{"flags": BitOr[uint64]{}, "sub": RewriterRules{"flags": BitOr[uint64]{}}}
+	rw, err := ParseRewriteTemplate(TypeOf(reflect.TypeOf(pTmpl{})), tmpl, rules)
+	vfAssert(err == nil, "template-parses")
+	if err != nil {
+		return
+	}
+	orig := pTmpl{Count: int64(vfByte()), Flags: uint64(vfByte()), Name: "orig", Sub: pTmplSub{Flags: uint64(vfByte()), N: 7}, Other: 3}
+	in, err := Marshal(orig)
+	vfAssert(err == nil, "marshal-ok")
+	saved := append([]byte(nil), in...)
+	out, err := rw.Rewrite(nil, in)
+	vfAssert(err == nil, "rewrite-ok")
+	if err != nil {
+		return
+	}
+	var got pTmpl
+	err = Unmarshal(out, &got)
+	vfAssert(err == nil, "output-decodes")
+	if err == nil {
+		want := orig
+		want.Count = cnt
+		if vfMode < 2 {
+			want.Flags = orig.Flags | mask
+			want.Name = "t"
+		} else {
+			want.Sub.Flags = orig.Sub.Flags | mask
+			want.Sub.N = cnt
+		}
+		vfAssert(got.Count == want.Count, "count-replaced")
+		vfAssert(got.Flags == want.Flags, "flags-bit-ored-or-untouched")
+		vfAssert(got.Name == want.Name, "name-replaced-or-untouched")
+		vfAssert(got.Sub.Flags == want.Sub.Flags, "sub.flags-bit-ored-or-untouched")
+		vfAssert(got.Sub.N == want.Sub.N, "sub.n-replaced-or-untouched")
+		vfAssert(got.Other == want.Other, "other-untouched")
+	}
+	vfAssert(string(in) == string(saved), "input-unchanged")
+	vfCover("done")
+}
